@@ -618,6 +618,17 @@ func e2Track(c *Ctx, s *obSink, fn *ssa.Function, get ssa.Instruction, obj ssa.V
 	case deferred:
 		d := puts[0]
 		good := len(puts) == 1 && (d.Block() == get.Block() || get.Block().Dominates(d.Block())) && !isLoopHeaderReachable(d.Block())
+		if len(puts) == 1 && !good && !isLoopHeaderReachable(d.Block()) {
+			// the object reaches the defer through a merge with nil (taken in one branch): a defer that runs exactly when the
+			// object is not nil releases it on every path that has one
+			for _, cd := range domConds(d.Block()) {
+				if bo, ok := cd.V.(*ssa.BinOp); ok && (bo.Op == token.NEQ) == cd.Truth && (bo.Op == token.NEQ || bo.Op == token.EQL) {
+					if al[bo.X] && isNilConst(bo.Y) || al[bo.Y] && isNilConst(bo.X) {
+						good = true
+					}
+				}
+			}
+		}
 		s.check(good, key+":put", c.InstrPos(d), "Put deferred right after Get: runs once on every exit", "deferred Put is not a single defer following the Get outside loops")
 	default:
 		// explicit Put(s): every return reachable from the Get passes exactly one Put
